@@ -1,4 +1,5 @@
 import DclabModel.Model.Hier
+import DclabModel.Model.HierCache
 import DclabModel.DriveUtil
 /-! Line-protocol driver for the hierarchy model (C04). Levels are numbered 0 = root … d = youngest.
 
@@ -14,8 +15,17 @@ import DclabModel.DriveUtil
        view : ids = sel(parent.all, parent ids) ∧ len = count(parent.all)      (theorem 2)
        low  : gM ∩ ids ⊆ excluded,  up : excluded ⊆ gM                          (theorem 3)
        spec : all = specAll                                                    (theorem 4)
+  lazily filled caches (Model/HierCache.lean; `col` lines before `init`):
+    col <v0> <v1> …                  root data of the next cache-modelled scalar feature → ok
+    setcol <f> <v0> …                the root's data of feature f change                → ok
+    setcalc <v>                      root.config["calculation"] token                   → ok
+    read <level> <f>                 np.asarray(L[f])  → `v0,v1,…` | err:index (numpy: lengths differ
+                                     on a member below a partial refresh; state unchanged)
+    summ <level> <f> <u>             L[f].min()/max()/mean() (u = 0,1,2) → `<int>` | `<sum>/<len>` |
+                                     err:value (empty) | nan (mean of nothing) | err:index
+    calc <level>                     → the member's calculation token
 -/
-open DclabModel.Hier DclabModel.DriveUtil
+open DclabModel.Hier DclabModel.HierCache DclabModel.DriveUtil
 
 structure St where
   fixed : Bool := true
@@ -23,6 +33,29 @@ structure St where
   D : Data := { n := 0, feats := [] }
   depth : Nat := 0
   s : List Level := []
+  a : List Aux := []
+  cols : List (List Int) := []
+
+def toX (st : St) : X := { s := st.s, a := st.a, cols := st.cols }
+
+/-- every operation goes through `xstep` (the function the theorems are about) when the repaired
+code is modelled; the pre-fix variants only exist for the witnesses and keep the same cache rule -/
+def stepB (st : St) (op : Op) : St :=
+  if st.fixed && st.snap then
+    let x := xstep st.D (toX st) (.base op)
+    { st with s := x.s, a := x.a }
+  else
+    { st with
+      s := step st.fixed st.snap st.D st.s op
+      a := match refreshPos op with
+        | some k => st.a.take k ++ auxApply (st.a.drop k)
+        | none => st.a }
+
+def stepX (st : St) (op : XOp) : St :=
+  let x := xstep st.D (toX st) op
+  { st with s := x.s, a := x.a, cols := x.cols }
+
+def showInts (v : List Int) : String := ",".intercalate (v.map toString)
 
 def pos (st : St) (lvl : Nat) : Option Nat := if lvl ≤ st.depth then some (st.depth - lvl) else none
 
@@ -68,12 +101,57 @@ def handle (st : St) (line : String) : St × String :=
   | "feat" :: vs => match parseInts vs with
     | some v => ({ st with D := { st.D with feats := st.D.feats ++ [v] } }, "ok")
     | none => (st, "bad-op")
-  | ["init"] => ({ st with s := initChain st.fixed st.snap st.D st.depth }, "ok")
+  | "col" :: vs => match parseInts vs with
+    | some v => ({ st with cols := st.cols ++ [v] }, "ok")
+    | none => (st, "bad-op")
+  | ["init"] =>
+    ({ st with s := initChain st.fixed st.snap st.D st.depth,
+               a := (xinit st.D st.depth st.cols 0).a }, "ok")
+  | "setcol" :: f :: vs => match f.toNat?, parseInts vs with
+    | some f, some v => (stepX st (.setCol f v), "ok")
+    | _, _ => (st, "bad-op")
+  | ["setcalc", v] => match parseInt? v with
+    | some v => (stepX st (.setCalc v), "ok")
+    | none => (st, "bad-op")
+  | ["read", lvl, f] =>
+    match lvl.toNat?, f.toNat? with
+    | some lvl, some f => match pos st lvl with
+      | some k =>
+        if readOk (col (toX st) f) f (allsFrom st.s k) (st.a.drop k) then
+          (stepX st (.read k f), showInts (readVal (toX st) k f))
+        else (st, "err:index")
+      | none => (st, "bad-op")
+    | _, _ => (st, "bad-op")
+  | ["summ", lvl, f, u] =>
+    match lvl.toNat?, f.toNat?, u.toNat? with
+    | some lvl, some f, some u => match pos st lvl with
+      | some k =>
+        let cached := match st.a.drop k, allsFrom st.s k with
+          | a :: _, _ :: _ => ((a.fc f).uf.lookup u).isSome
+          | _, _ => false
+        if cached || readOk (col (toX st) f) f (allsFrom st.s k) (st.a.drop k) then
+          let ans := match summVal (toX st) k f u with
+            | none => "err:value"
+            | some x =>
+              if u == 2 then
+                let n := (readVal (toX st) k f).length
+                if n == 0 then "nan" else s!"{x}/{n}"
+              else toString x
+          (stepX st (.summ k f u), ans)
+        else (st, "err:index")
+      | none => (st, "bad-op")
+    | _, _, _ => (st, "bad-op")
+  | ["calc", lvl] =>
+    match lvl.toNat? with
+    | some lvl => match pos st lvl with
+      | some k => (st, match st.a.drop k with | a :: _ => toString a.ccfg | [] => "bad-op")
+      | none => (st, "bad-op")
+    | none => (st, "bad-op")
   | ["set", lvl, f, lo, hi] =>
     match lvl.toNat?, f.toNat?, parseInt? lo, parseInt? hi with
     | some lvl, some f, some lo, some hi =>
       match pos st lvl with
-      | some k => ({ st with s := step st.fixed st.snap st.D st.s (.setRange k f lo hi) }, "ok")
+      | some k => (stepB st (.setRange k f lo hi), "ok")
       | none => (st, "bad-op")
     | _, _, _, _ => (st, "bad-op")
   | ["man", lvl, p, b] =>
@@ -84,21 +162,21 @@ def handle (st : St) (line : String) : St × String :=
         match st.s.drop k with
         | c :: _ =>
           if p < c.manual.length then
-            ({ st with s := step st.fixed st.snap st.D st.s (.manual k p (b != 0)) }, "ok")
+            (stepB st (.manual k p (b != 0)), "ok")
           else (st, "err:index")
         | [] => (st, "bad-op")
       | none => (st, "bad-op")
     | _, _, _ => (st, "bad-op")
   | ["rejuv"] =>
     if st.snap || retrieveOk st.fixed st.s then
-      ({ st with s := step st.fixed st.snap st.D st.s .rejuv }, "ok")
+      (stepB st .rejuv, "ok")
     else (st, "err:index")
   | ["rejuvat", lvl] =>
     match lvl.toNat? with
     | some lvl => match pos st lvl with
       | some k =>
         if st.snap || retrieveOk st.fixed (st.s.drop k) then
-          ({ st with s := step st.fixed st.snap st.D st.s (.rejuvAt k) }, "ok")
+          (stepB st (.rejuvAt k), "ok")
         else (st, "err:index")
       | none => (st, "bad-op")
     | none => (st, "bad-op")
